@@ -135,3 +135,20 @@ Example C03_hypotheses_satisfiable :
   wf_b sample_col = true /\ norm_missing_all_b sample_col = true /\ chunks sample_col <> []
   /\ m_list_lengths sample_col = Ok [2; 0; 0; 3].
 Proof. split; [reflexivity|]. split; [reflexivity|]. split; [discriminate|reflexivity]. Qed.
+
+(* the per-row numpy view (iter_field_lists, what reduce hands to user functions): row by row what the logical column
+   says, the dtype of a row decided by that row alone *)
+From NP Require Import NumpyView Proofs_NumpyView.
+Theorem C03_iter_field_lists : forall p nm, wf_b p = true -> chunks p <> [] -> NoDup (map fst (ctype p)) ->
+  has_name (map fst (ctype p)) nm = true ->
+  m_iter_field_lists p nm = spec_iter_field_lists (abs p) nm /\ exists rows, m_iter_field_lists p nm = Ok rows.
+Proof. exact iter_field_lists_exact. Qed.
+Print Assumptions C03_iter_field_lists.
+Theorem C03_iter_row_dtype_local : forall L nm rows i t d vs, spec_iter_field_lists L nm = Ok rows ->
+  field_type (lsch L) nm = Some t -> nth_error rows i = Some (Some (d, vs)) -> d = np_dtype t (has_null vs).
+Proof. exact row_dtype_local. Qed.
+Print Assumptions C03_iter_row_dtype_local.
+Example C03_iter_field_lists_nonvacuous :
+  wf_b cx_one = true /\ chunks cx_one <> [] /\ NoDup (map fst (ctype cx_one)) /\ has_name (map fst (ctype cx_one)) "a" = true
+  /\ m_iter_field_lists cx_one "a" = Ok [Some (DInt64, [VInt 1; VInt 2]); Some (DFloat64, [VInt 3; VNull])].
+Proof. exact iter_field_lists_nonvacuous. Qed.
